@@ -1,11 +1,11 @@
 (* C07 -- property theorems only.  Statements are about the model of the exact block updates
    (Model/Descent.v) instantiated at the reals (Rops); the correspondence executes the same
    definitions at Qops on states captured from the implementation. *)
-From Coq Require Import Reals List Arith Lia Lra.
+From Coq Require Import Reals List Arith Lia Lra QArith.
 From TLV Require Import Base.Shape Base.PyList Base.Tensor Base.Ops Base.RSum Model.Descent
   Model.DescentReport Proofs.DescentProofs Proofs.DescentProofsHals Proofs.DescentProofsLink Proofs.DescentProofsOrth Proofs.DescentProofsNorm Proofs.DescentProofsNN Proofs.DescentProofsReg Proofs.DescentProofsTucker Proofs.DescentProofsCmtf Proofs.DescentProofsTkReg Proofs.DescentProofsTR Proofs.DescentProofsUnfold
   Proofs.DescentProofsSpec Proofs.DescentProofsSweeps Proofs.DescentProofsSweeps2 Proofs.DescentProofsReport Proofs.DescentProofsP2Tie Proofs.DescentProofsStatic Proofs.DescentProofsNNNorm
-  Model.DescentModes Proofs.DescentProofsModes.
+  Model.DescentModes Proofs.DescentProofsModes Proofs.DescentProofsR6.
 Import ListNotations.
 Open Scope R_scope.
 
@@ -583,6 +583,57 @@ Theorem C07_nn_modes_lt : forall (n : nat) (fixed : list nat) (m : nat), In m (n
 Proof. exact nn_modes_lt. Qed.
 Print Assumptions C07_nn_modes_lt.
 
+
+(* ================= round 6 ================= *)
+(* HOOI from ANY initial factors (init='random'): one sweep over the decomposed modes makes every factor orthonormal (the SVD oracle's answers
+   have orthonormal columns; undecomposed modes carry a matrix with orthonormal columns), so the errors reported after sweeps 1, 2, .. are
+   non-increasing; the certificate contract is needed from the state after sweep 1 on *)
+Theorem C07_hooi_first_sweep_orth : forall (X : tensor R) (rs : list nat) (svd : list (list (list R)) -> nat -> list (list R)) (modes : list nat),
+  length rs = length (shape X) ->
+  (forall (Us : list (list (list R))) (k : nat), In k modes -> orthonormal (nth k (shape X) 0%nat) (nth k rs 0%nat) (mget Rops (svd Us k))) ->
+  forall Us0 : list (list (list R)), length Us0 = length (shape X) ->
+  (forall k : nat, (k < length (shape X))%nat -> In k modes \/ okmode X rs Us0 k) -> orth_all (shape X) rs (hooi_sweep svd modes Us0).
+Proof. exact hooi_first_sweep_orth. Qed.
+Print Assumptions C07_hooi_first_sweep_orth.
+Theorem C07_hooi_reported_monotone_any_init : forall (X : tensor R) (rs : list nat) (svd : list (list (list R)) -> nat -> list (list R)) (modes : list nat),
+  length rs = length (shape X) ->
+  (forall (Us : list (list (list R))) (k : nat), In k modes -> orthonormal (nth k (shape X) 0%nat) (nth k rs 0%nat) (mget Rops (svd Us k))) ->
+  forall (Us0 : list (list (list R))) (n : nat), length Us0 = length (shape X) ->
+  (forall k : nat, (k < length (shape X))%nat -> In k modes \/ okmode X rs Us0 k) ->
+  run_ok (list (list (list R))) (hooi_sweep svd modes) (hooi_sweep_ok X rs svd modes) n (hooi_sweep svd modes Us0) ->
+  forall i j : nat, (1 <= i)%nat -> (i <= j)%nat -> (j <= S n)%nat ->
+  tk_reported X rs (Nat.iter j (hooi_sweep svd modes) Us0) <= tk_reported X rs (Nat.iter i (hooi_sweep svd modes) Us0).
+Proof. exact hooi_reported_monotone_any_init. Qed.
+Print Assumptions C07_hooi_reported_monotone_any_init.
+
+(* PENALTIES.  What the blocks solve exactly, and what therefore descends, is the PENALISED objective: C07_cp_sweep_descent / C07_cp_history_monotone
+   (||X-[[w;A..]]||^2 + l2_reg sum_j ||A_j diag w||^2) and C07_nn_sweep_descent / C07_nn_history_monotone (||X-[[w;A..]]||^2/2 + sum_j sparsity_j sum(A_j)).
+   The algorithms REPORT the unpenalised reconstruction error, which is then NOT monotone: blocks that satisfy their contract, lower the
+   penalised objective and raise the squared error (so the property's clause on reported errors holds only without penalties: known class
+   penalised_reported_error); and with sparsity the in-sweep renormalisation of nn-HALS can raise the penalised objective itself *)
+Theorem C07_cp_l2_reported_refuted :
+  exists (X : tensor R) (w : list R) (facs : list (list (list R))) (k : nat) (lam : R) (rank : nat) (x : list (list R)),
+    0 < lam /\ (k < length (shape X))%nat /\ (k < length facs)%nat /\
+    (forall i r : nat, (i < nth k (shape X) 0)%nat -> (r < rank)%nat -> cp_cert_lhs Rops (shape X) w facs k lam rank x i r = cp_mttkrp Rops X w facs k i r) /\
+    cp_obj Rops X w (set_nth k x facs) k lam rank < cp_obj Rops X w facs k lam rank /\ cp_sqerr Rops X w facs rank < cp_sqerr Rops X w (set_nth k x facs) rank.
+Proof. exact cp_l2_reported_refuted. Qed.
+Print Assumptions C07_cp_l2_reported_refuted.
+Theorem C07_nn_sparsity_reported_refuted :
+  exists (X : tensor Q) (w : list Q) (facs : list (list (list Q))) (l1s : list Q) (rank : nat),
+    let facs' := nn_block Qops (fun _ _ : list (list Q) => []) X w rank l1s 0%Q facs (0%nat, BHals 1) in
+    facs' = [[[1 # 2]]; [[1%Q]]] /\
+    Qlt_bool' (nn_obj Qops X w facs' l1s rank) (nn_obj Qops X w facs l1s rank) = true /\
+    Qlt_bool' (cp_sqerr Qops X w facs rank) (cp_sqerr Qops X w facs' rank) = true.
+Proof. exact nn_sparsity_reported_refuted. Qed.
+Print Assumptions C07_nn_sparsity_reported_refuted.
+Theorem C07_nn_norm_sparsity_refuted :
+  exists (X : tensor R) (st : cpstate) (l1s : list R) (rank : nat) (norms : nat -> cpstate -> list R * list R),
+    let st' := cp_normalize_m Rops (shape X) rank norms st in
+    cp_sqerr Rops X (fst st') (snd st') rank = cp_sqerr Rops X (fst st) (snd st) rank /\
+    nn_obj Rops X (fst st) (snd st) l1s rank < nn_obj Rops X (fst st') (snd st') l1s rank.
+Proof. exact nn_norm_sparsity_refuted. Qed.
+Print Assumptions C07_nn_norm_sparsity_refuted.
+
 (* ---------- non-vacuity: the hypotheses of the theorems above are satisfiable (and the descent can be strict) ---------- *)
 Example C07_cp_nonvacuous :
   let X := mk [2;2]%nat [1;2;3;4] in let w := [1] in let facs := [[[1];[1]]; [[1];[2]]] in
@@ -815,3 +866,34 @@ Qed.
 (* fixed_modes = [2; 0] on a third-order tensor: the last mode cannot be fixed, modes 1 and 2 are updated; [1; 2; 0] fixes everything *)
 Example C07_modes_example : cp_modes_list 3 [2; 0]%nat = [1; 2]%nat /\ cp_all_fixed 3 [1; 2; 0]%nat = true /\ nn_modes_list 3 [2; 0]%nat = [1]%nat.
 Proof. repeat split; reflexivity. Qed.
+
+(* round 6: the hypotheses of the HOOI result (C07_hooi_unfolding_block_descent / C07_hooi_sweep_descent: orthonormal factors before and after,
+   spectral certificate of the unfolding, attained value) discharged JOINTLY on a concrete 2 x 2 x 2 instance over R, with STRICT descent:
+   X[0,0,0] = 3, X[1,0,0] = 4, X[1,1,1] = 1, ranks (1,1,1), factors e1, e1, e1; the unfolding of mode 0 is Y = (3, 4)', Y Y' = [[9,12],[12,16]]
+   = Q diag(25, 0) Q' with Q = [[3/5, -4/5], [4/5, 3/5]]; the oracle answers (3/5, 4/5)'; the Tucker objective drops from 17 to 1 *)
+Example C07_hooi_222_nonvacuous :
+  let X := mk [2;2;2]%nat [3;0;0;0;4;0;0;1] in let Us := [[[1];[0]]; [[1];[0]]; [[1];[0]]] in
+  let svd := fun (_ : list (list (list R))) (_ : nat) => [[3/5];[4/5]] in
+  hooi_sweep_ok X [1;1;1]%nat svd [0%nat] Us /\
+  tk_hooi_obj Rops X [1;1;1]%nat (hooi_sweep svd [0%nat] Us) < tk_hooi_obj Rops X [1;1;1]%nat Us.
+Proof.
+  cbv zeta.
+  assert (H : orthonormal 2 1 (mget Rops [[1];[0]])).
+  { intros a b Ha Hb. assert (a = 0%nat) by lia. assert (b = 0%nat) by lia. subst. vm_compute. ring. }
+  assert (H' : orthonormal 2 1 (mget Rops [[3/5];[4/5]])).
+  { intros a b Ha Hb. assert (a = 0%nat) by lia. assert (b = 0%nat) by lia. subst. vm_compute. field. }
+  split.
+  - split; [|exact I]. unfold hooi_block_ok, hooi_block. cbn [shape length nth set_nth].
+    split; [lia|]. split; [reflexivity|]. split; [lia|]. split; [lia|].
+    split; [simpl; repeat split; exact H|]. split; [simpl; repeat split; first [exact H' | exact H]|].
+    exists (fun i j : nat => match i, j with O, O => 3/5 | O, S O => -4/5 | S O, O => 4/5 | S O, S O => 3/5 | _, _ => 0 end),
+           (fun i : nat => match i with O => 25 | _ => 0 end).
+    split.
+    + unfold spectral_cert. repeat split.
+      * intros a b Ha Hb. destruct a as [|[|a]]; destruct b as [|[|b]]; try lia; vm_compute; field.
+      * intros a b Ha Hb. destruct a as [|[|a]]; destruct b as [|[|b]]; try lia; vm_compute; field.
+      * intros i j Hi Hj. destruct i as [|[|i]]; destruct j as [|[|j]]; try lia; vm_compute; field.
+      * intros i j Hij Hj. destruct i as [|[|i]]; destruct j as [|[|j]]; try lia; lra.
+    + vm_compute. lra.
+  - vm_compute. lra.
+Qed.
